@@ -5,7 +5,7 @@ import json
 import sys
 import warnings
 
-sys.path.insert(0, "/verif/harness")
+sys.path.insert(0, __import__("os").path.dirname(__import__("os").path.abspath(__file__)))
 import impl  # noqa: E402
 import cback  # noqa: E402
 
